@@ -7,16 +7,22 @@ RULE = ("Gen_LineMeasure: one TLC state per line string over the 5x5 lattice who
         "mirror image. Replay: ratio and distance forms from start and end on LineString and Line, the deprecated "
         "line_interpolate_point, length, line_locate_point round trip on simple lines, densify (8 bounds from 1/4 to 100) on "
         "Line / LineString / Polygon / Rect / Triangle held to: original vertices in order, no segment longer than max, total "
-        "length unchanged (hence inserted points on the original segments), at least sum ceil(len/max) pieces. Tolerance 1e-12 L.")
-ASSUME = ["segment lengths are integers so that arc length is exact in TLC", "ratios are multiples of 1/8 or 1/3; bounds from 1/4 to 100"]
+        "length unchanged (hence inserted points on the original segments), at least sum ceil(len/max) pieces. Tolerance 1e-12 L. "
+        "General slopes (Mode = general: every lattice vertex sequence, irrational segment lengths): ratios / distances at or beyond "
+        "the ends (1, 1+eps, 1.5, 2, 1e300, +inf; 0, -0.5, -1e300, -inf) must give exactly the end vertices in all forms incl. the "
+        "legacy trait; for r = k/8 the from-start / from-end(1-r) / distance / legacy forms must agree to 1e-9 and line_locate_point "
+        "maps the point back to r on simple open lines; densify postconditions with 5 bounds.")
+ASSUME = ["exact arc-length positions are only given where segment lengths are integers; on general slopes the specification gives the clamped ends and the laws between forms", "ratios are multiples of 1/8 or 1/3; bounds from 1/4 to 100"]
 
 
 def check(tier, seed, t0):
     if tier == "quick":
-        runs = [dict(name="n4", module="Gen_LineMeasure", constants=dict(K=4, MaxN=4, Stride=3, Offset=seed % 3), invariants=["WalkOK"])]
+        runs = [dict(name="n4", module="Gen_LineMeasure", constants=dict(K=4, MaxN=4, Stride=3, Offset=seed % 3, Mode="integer"), invariants=["WalkOK"]),
+                dict(name="g4", module="Gen_LineMeasure", constants=dict(K=3, MaxN=4, Stride=4, Offset=seed % 4, Mode="general"), invariants=["WalkOK"])]
     else:
-        runs = [dict(name="n5", module="Gen_LineMeasure", constants=dict(K=4, MaxN=5, Stride=1, Offset=0), invariants=["WalkOK"], timeout=3000)]
-    vf.simple_check("C15", tier, seed, t0, runs, RULE, ASSUME, nontrivial=lambda c: c["len"] > 0 and len(c["cs"]) >= 3)
+        runs = [dict(name="n5", module="Gen_LineMeasure", constants=dict(K=4, MaxN=5, Stride=1, Offset=0, Mode="integer"), invariants=["WalkOK"], timeout=3000),
+                dict(name="g5", module="Gen_LineMeasure", constants=dict(K=3, MaxN=5, Stride=4, Offset=seed % 4, Mode="general"), invariants=["WalkOK"], timeout=3000)]
+    vf.simple_check("C15", tier, seed, t0, runs, RULE, ASSUME, nontrivial=lambda c: (c.get("len", 1) > 0 and len(c["cs"]) >= 3))
 
 
 def replay(path, seed, t0):
